@@ -546,3 +546,89 @@ pub fn normalising_api_admin_stage(ctx: &Ctx) -> u64 {
     }
     n
 }
+
+// ---------------------------------------------------------------------------------------------
+// C04: the data envelope at the length boundaries of its encoding
+
+#[cw_serde]
+pub struct LMsg {
+    pub len: u32,
+}
+fn l_data(len: u32) -> Vec<u8> {
+    (0..len).map(|i| (i % 251) as u8).collect()
+}
+fn l_execute(_deps: DepsMut, _env: Env, _info: MessageInfo, msg: LMsg) -> Result<Response, StdError> {
+    Ok(Response::new().set_data(l_data(msg.len)))
+}
+fn l_instantiate(_deps: DepsMut, _env: Env, _info: MessageInfo, msg: LMsg) -> Result<Response, StdError> {
+    Ok(if msg.len == u32::MAX { Response::new() } else { Response::new().set_data(l_data(msg.len)) })
+}
+fn l_query(_deps: Deps, _env: Env, _msg: Empty) -> StdResult<Binary> {
+    Ok(Binary::default())
+}
+fn l_migrate(_deps: DepsMut, _env: Env, msg: LMsg) -> Result<Response, StdError> {
+    Ok(Response::new().set_data(l_data(msg.len)))
+}
+fn varint(mut n: usize) -> Vec<u8> {
+    let mut out = vec![];
+    loop {
+        let b = (n & 0x7f) as u8;
+        n >>= 7;
+        if n == 0 {
+            out.push(b);
+            return out;
+        }
+        out.push(b | 0x80);
+    }
+}
+fn field(no: u8, bytes: &[u8]) -> Vec<u8> {
+    let mut out = vec![(no << 3) | 2];
+    out.extend(varint(bytes.len()));
+    out.extend_from_slice(bytes);
+    out
+}
+
+/// The data of execute, migrate and instantiate is the protobuf envelope (field 1 = data, resp. field
+/// 1 = address and field 2 = data) for every data length around the points where the length prefix
+/// grows (1, 127, 128, 129, 255, 256, 16383, 16384, 16385 bytes).
+pub fn data_length_stage(ctx: &Ctx) -> u64 {
+    let mut n = 0;
+    let api = MockApi::default();
+    let user = api.addr_make("user");
+    let mut app = App::default();
+    let code = app.store_code(Box::new(ContractWrapper::new(l_execute, l_instantiate, l_query).with_migrate(l_migrate)));
+    let c = app.instantiate_contract(code, user.clone(), &LMsg { len: u32::MAX }, &[], "l", Some(user.to_string())).unwrap();
+    for len in [1u32, 2, 126, 127, 128, 129, 255, 256, 16383, 16384, 16385, 16511, 16512] {
+        for kind in ["execute", "migrate", "instantiate"] {
+            n += 1;
+            let cj = json!({"engine": "envelope", "stage": "data-length", "kind": kind, "data_length": len});
+            let msg: CosmosMsg = match kind {
+                "execute" => WasmMsg::Execute { contract_addr: c.to_string(), msg: to_json_binary(&LMsg { len }).unwrap(), funds: vec![] }.into(),
+                "migrate" => WasmMsg::Migrate { contract_addr: c.to_string(), new_code_id: code, msg: to_json_binary(&LMsg { len }).unwrap() }.into(),
+                _ => WasmMsg::Instantiate { admin: None, code_id: code, msg: to_json_binary(&LMsg { len }).unwrap(), funds: vec![], label: format!("l{}", len) }.into(),
+            };
+            match catch(|| app.execute(user.clone(), msg)) {
+                Ok(Ok(resp)) => {
+                    let got = resp.data.clone().map(|b| b.to_vec()).unwrap_or_default();
+                    let want = if kind == "instantiate" {
+                        let addr = resp.events.iter().find(|e| e.ty == "instantiate").and_then(|e| e.attributes.iter().find(|a| a.key == "_contract_address")).map(|a| a.value.clone()).unwrap_or_default();
+                        let mut w = field(1, addr.as_bytes());
+                        w.extend(field(2, &l_data(len)));
+                        w
+                    } else {
+                        field(1, &l_data(len))
+                    };
+                    if got != want {
+                        let first = got.iter().zip(want.iter()).position(|(a, b)| a != b).unwrap_or(got.len().min(want.len()));
+                        ctx.violation(
+                            &format!("c04:data-envelope-malformed:{}", kind),
+                            json!({"case": cj, "got_length": got.len(), "want_length": want.len(), "first_difference_at_byte": first, "got_head": hex(&got[..got.len().min(12)]), "want_head": hex(&want[..want.len().min(12)])}),
+                        );
+                    }
+                }
+                other => ctx.violation(&format!("c04:data-length:call-failed:{}", kind), json!({"case": cj, "result": format!("{:?}", other.map(|r| r.map(|_| "Ok").map_err(|e| format!("{:#}", e))))})),
+            }
+        }
+    }
+    n
+}
